@@ -8,11 +8,12 @@
 package main
 
 import (
+	"bytes"
+	"os"
 	"fmt"
 	"net"
 	"net/http"
 	"runtime"
-	"strings"
 	"sync"
 	"sync/atomic"
 	"time"
@@ -31,6 +32,7 @@ var (
 	pending  int32
 	arrivals chan struct{}
 	respond  chan int
+	quit     chan struct{}
 	port     int
 	serial   int
 )
@@ -41,15 +43,22 @@ const noConf = 1000000
 func handler(w http.ResponseWriter, r *http.Request) {
 	mu.Lock()
 	mine := r.URL.Path == curPath
-	arr, resp := arrivals, respond
+	arr, resp, q := arrivals, respond, quit
 	mu.Unlock()
 	if !mine {
 		w.WriteHeader(500)
 		return
 	}
 	atomic.AddInt32(&pending, 1)
-	arr <- struct{}{}
-	code := <-resp
+	select {
+	case arr <- struct{}{}:
+	default:
+	}
+	code := 500
+	select {
+	case code = <-resp:
+	case <-q: // the case is over: whatever is still waiting gets a failure
+	}
 	atomic.AddInt32(&pending, -1)
 	w.WriteHeader(code)
 }
@@ -77,17 +86,52 @@ func setThr(cluster, path string, ft, st int) {
 }
 
 // liveCheckers counts goroutines currently inside health_check.go:check (from the runtime's stack dump).
+// patience: how long a wait for an expected event may take; once a case has missed one (the implementation does not
+// behave as expected, the observation will differ anyway) the remaining waits of that case are short
+var caseBroken bool
+
+func patience() time.Duration {
+	if caseBroken {
+		return 20 * time.Millisecond
+	}
+	return 3 * time.Second
+}
+
+func missed(start time.Time) {
+	if time.Since(start) >= 3*time.Second {
+		caseBroken = true
+	}
+}
+
+var stackBuf = make([]byte, 1<<18)
+
 func liveCheckers() int {
-	buf := make([]byte, 1<<18)
-	n := runtime.Stack(buf, true)
-	return strings.Count(string(buf[:n]), "bfe_balance/backend.check(")
+	n := runtime.Stack(stackBuf, true)
+	return bytes.Count(stackBuf[:n], []byte("bfe_balance/backend.check("))
+}
+
+// live = goroutines inside check.  The stack dump stops the world, so it is taken only once the backend has been
+// released (the states in which a checker may exist without a request outstanding); before that the checker, if any,
+// is blocked in the harness's handler and counted there.
+func live(released bool) int {
+	if released {
+		return liveCheckers()
+	}
+	return int(atomic.LoadInt32(&pending))
 }
 
 // waitGone waits until no check goroutine is alive or a further check request shows up.
 func waitGone() {
-	deadline := time.Now().Add(3 * time.Second)
+	t0 := time.Now()
+	defer missed(t0)
+	defer func() {
+		if d := time.Since(t0); d > 500*time.Millisecond && os.Getenv("VERIF_DEBUG") != "" {
+			fmt.Fprintln(os.Stderr, "waitGone stall", d, liveCheckers(), atomic.LoadInt32(&pending))
+		}
+	}()
+	deadline := time.Now().Add(patience())
 	for liveCheckers() > 0 && atomic.LoadInt32(&pending) == 0 && time.Now().Before(deadline) {
-		time.Sleep(20 * time.Microsecond)
+		time.Sleep(100 * time.Microsecond)
 	}
 }
 
@@ -106,11 +150,13 @@ func impl(in hv.Val) hv.Val {
 		return hv.Err(0)
 	}
 	serial++
+	caseBroken = false
 	cluster, path := fmt.Sprintf("cl%d", serial), fmt.Sprintf("/c%d", serial)
 	mu.Lock()
 	curPath = path
 	arrivals = make(chan struct{}, 64)
 	respond = make(chan int, 64)
+	quit = make(chan struct{})
 	mu.Unlock()
 	atomic.StoreInt32(&pending, 0)
 	setThr(cluster, path, int(hv.AsInt(top[0])), int(hv.AsInt(top[1])))
@@ -138,13 +184,21 @@ func impl(in hv.Val) hv.Val {
 				wg.Wait()
 			}
 			if before && !back.Avail() && !released {
-				waitArrival(3 * time.Second) // the checker that was just started issues its first request
+				if !waitArrival(patience()) { // the checker that was just started issues its first request
+					caseBroken = true
+				}
 			} else if released {
 				// a checker started for a removed backend leaves at once: wait until the goroutine count is back
 				// (the new goroutine may not have run yet) and no goroutine is inside check
-				deadline := time.Now().Add(3 * time.Second)
-				for (runtime.NumGoroutine() > g0 || liveCheckers() > 0) && time.Now().Before(deadline) {
-					time.Sleep(20 * time.Microsecond)
+				deadline := time.Now().Add(patience())
+				for (runtime.NumGoroutine() > g0 || liveCheckers() > int(atomic.LoadInt32(&pending))) && time.Now().Before(deadline) {
+					time.Sleep(100 * time.Microsecond)
+				}
+				if time.Now().After(deadline) {
+					caseBroken = true
+				}
+				if os.Getenv("VERIF_DEBUG") != "" && time.Now().After(deadline) {
+					fmt.Fprintln(os.Stderr, "released-fail stall", runtime.NumGoroutine(), g0, liveCheckers())
 				}
 			}
 		case 2:
@@ -168,9 +222,13 @@ func impl(in hv.Val) hv.Val {
 					}
 				} else {
 					// either the next request arrives or the backend is back in rotation (then the checker leaves)
-					deadline := time.Now().Add(3 * time.Second)
+					deadline := time.Now().Add(patience())
 					for {
-						if waitArrival(50 * time.Microsecond) || time.Now().After(deadline) {
+						if waitArrival(50 * time.Microsecond) {
+							break
+						}
+						if time.Now().After(deadline) {
+							caseBroken = true
 							break
 						}
 						if back.Avail() {
@@ -213,7 +271,7 @@ func impl(in hv.Val) hv.Val {
 			return hv.Err(0)
 		}
 		out = append(out, hv.L{hv.Bool(back.Avail()), hv.I(back.FailNum()), hv.I(back.SuccNum()),
-			hv.I(int(atomic.LoadInt32(&pending))), hv.Bool(back.GetRestart()), hv.I(liveCheckers())})
+			hv.I(int(atomic.LoadInt32(&pending))), hv.Bool(back.GetRestart()), hv.I(live(released))})
 	}
 	// stop whatever is still running for this case
 	if !released {
@@ -221,14 +279,11 @@ func impl(in hv.Val) hv.Val {
 	}
 	mu.Lock()
 	curPath = ""
+	close(quit)
 	mu.Unlock()
-	for k := 0; k < 4 && atomic.LoadInt32(&pending) > 0; k++ {
-		respond <- 500
-		time.Sleep(200 * time.Microsecond)
-	}
-	deadline := time.Now().Add(3 * time.Second)
+	deadline := time.Now().Add(patience())
 	for liveCheckers() > 0 && time.Now().Before(deadline) {
-		time.Sleep(20 * time.Microsecond)
+		time.Sleep(100 * time.Microsecond)
 	}
 	return out
 }
